@@ -4,7 +4,7 @@ Refuting event: a token list returned by emmet.abbreviation.tokenize /
 emmet.css_abbreviation.tokenize whose spans are undefined, empty, overlapping, gapped or
 do not end at len(input); or an escaping exception that is not ScannerException with
 0 <= pos <= len(input)."""
-from .. import core, enum, gen_abbr, gen_cssabbr
+from .. import core, enum, gen_abbr, gen_cssabbr, stretch
 
 ID = 'C18'
 RULE = ('cases = (mode, string) with mode in markup / stylesheet-property / stylesheet-value; '
@@ -111,13 +111,18 @@ def run_shard(desc, ctx):
     for i in range(desc['n']):
         for mode in MODES:
             alpha = (MARKUP_ALPHA if mode == 'markup' else CSS_ALPHA)
-            L = rng.randint(5, 60)
+            L = rng.randint(5, 60) if rng.random() < 0.9 else rng.randint(61, 400)
             s = ''.join(rng.choice(alpha) if rng.random() < 0.93 else rng.choice(extra) for _ in range(L))
             check(mode, s, ('markup' if mode == 'markup' else 'css') + ':random', ctx, fns)
         if i % 3 == 0:
             a = gen_abbr.random_abbreviation(rng)
             for j in range(len(a) + 1):
                 check('markup', a[:j], 'markup:prefix', ctx, fns)
+            for _ in range(3):
+                check('markup', stretch.stretch_class(a, rng), 'markup:stretched', ctx, fns)
+                x = stretch.stretch_class(gen_cssabbr.random_abbreviation(rng), rng)
+                check('css', x, 'css:stretched', ctx, fns)
+                check('cssval', x, 'css:stretched', ctx, fns)
             c = gen_cssabbr.random_abbreviation(rng)
             for j in range(len(c) + 1):
                 check('css', c[:j], 'css:prefix', ctx, fns)
